@@ -26,6 +26,13 @@ def P(bxs):
 def cases(ctx):
     for i in range(ctx.pick(600, 300000)):
         yield "fullfact", {"seed": ctx.subseed("f", i)}
+    # one factor with very many levels (a finely resolved parameter next to one or two switches): level counts around the widths
+    # of the integer types a vectorised implementation might pick for its index matrix
+    big = [255, 256, 257, 32767, 32768, 32769, 65535, 65536, 65537]
+    rb = ctx.rng("biglevels")
+    big += [rb.randint(258, 32766), rb.randint(32770, 65534), rb.randint(32770, 65534)] + ([rb.randint(65538, 200000) for _ in range(3)] if not ctx.quick else [])
+    for cnt in big:
+        yield "fullfact_many_levels", {"count": cnt, "seed": ctx.subseed("big", cnt)}
     for k in range(1, 24):
         for rep in range(ctx.pick(4, 900)):
             yield "pb", {"k": k, "seed": ctx.subseed("pb", k, rep)}
@@ -48,6 +55,35 @@ def cases(ctx):
 
 def run_case(ctx, name, params):
     from artap import operators, doe
+    if name == "fullfact_many_levels":
+        r = ctx.rng("big", params["seed"])
+        cnt = params["count"]
+        others = r.choice([[], [2], [2], [3], [2, 2]])
+        pos = r.randrange(len(others) + 1)
+        counts = others[:pos] + [cnt] + others[pos:]
+        start = r.randint(-5, 5)
+        levels = [[start + 0.5 * i for i in range(c)] if c == cnt else [float(10 * i + 1) for i in range(c)] for c in counts]
+        g = operators.FullFactorLevelsGenerator(P([[0.0, 1.0]] * len(counts)))
+        g.init([list(v) for v in levels])
+        wit = lambda: {"level_counts": counts}
+        try:
+            vecs = g.generate()
+        except Exception as e:
+            ctx.violation("fullfact/exception", "generate raised %r" % e, wit())
+            return
+        ctx.count("fullfact_designs")
+        ctx.count("fullfact_designs_with_a_factor_of_more_than_255_levels")
+        exp = collections.Counter(itertools.product(*levels))
+        got = collections.Counter(tuple(v) for v in vecs)
+        if got != exp:
+            miss = list((exp - got).keys())[:3]
+            extra = list((got - exp).keys())[:3]
+            ctx.violation("fullfact/combinations", "design is not every combination exactly once (missing %s, extra/repeated %s)"
+                          % (miss, extra), wit())
+            return
+        ctx.nontrivial(("ffbig", tuple(counts)))
+        ctx.count("cases")
+        return
     if name == "fullfact":
         r = ctx.rng("f", params["seed"])
         n = r.randint(1, 6)
